@@ -14,6 +14,7 @@ ROOT = os.path.dirname(os.path.dirname(os.path.abspath(__file__)))
 EVIDENCE_DIR = os.environ.get("VF_EVIDENCE_DIR") or os.path.join(ROOT, "evidence")
 REPLAY_DIR = os.environ.get("VF_REPLAY_DIR") or os.path.join(ROOT, "replays")
 KNOWN_FILE = os.path.join(ROOT, "known_findings.json")
+MAX_REPORT = int(os.environ.get("VF_MAX_REPORT", "20"))
 
 
 def canon(obj: Any) -> str:
@@ -134,7 +135,7 @@ class Ctx(Partial):
                     f"[{k['id']}; seen in {seen_known[k['id']]} executions]"
                 )
         os.makedirs(REPLAY_DIR, exist_ok=True)
-        for v in new[:20]:
+        for v in new[:MAX_REPORT]:
             d = digest(v["signature"])
             path = os.path.join(REPLAY_DIR, f"{self.prop}-{d}.json")
             with open(path, "w") as f:
